@@ -574,6 +574,7 @@ void reuse_test() {
   using MP = typename CP::marked_ptr;
   using GP = typename CP::guard_ptr;
   const int gens = (int)opt("gens", 2), maxn = (int)opt("maxn", K > 0 ? K : 6);
+  const bool eras = opt("eras", 0) != 0;
   constexpr int NCELL = 12;
   cell_set(NEXTID, 0);
   CP* cells = new CP[NCELL];
@@ -592,6 +593,21 @@ void reuse_test() {
       int ids[NCELL];
       for (int i = 0; i < n; i++) {
         h[i].emplace();
+        if (eras) {
+          // every guard in an era of its own, on a node born in that era: the node in cell i is replaced (its retirement
+          // advances the era clock) right before guard i is taken, so node i is younger than the eras of all earlier
+          // guards - once the later guards are gone (release order 1) only guard i's own slot covers it.  Hazard eras
+          // share a slot between guards of one era: without this all n guards of a generation use a single slot and the
+          // pool never grows (seed C18d: the second growth wiped the slots of the first).
+          try {
+            GP t;
+            t.acquire(cells[i], std::memory_order_acquire);
+            cells[i].store(MP(new Node((int)cell_add(NEXTID, 1)), 0), std::memory_order_release);
+            t.reclaim();
+          } catch (const Exc&) {
+            fail("SLOTS", "generation %d: temporary guard next to %d held guards refused (K = %d)", gen, i, K);
+          }
+        }
         try {
           h[i]->acquire(cells[i], std::memory_order_acquire);
         } catch (const Exc&) {
@@ -635,9 +651,24 @@ void reuse_test() {
         for (int i = 0; i < n; i += 2) pos[np++] = i;
         for (int i = 1; i < n; i += 2) pos[np++] = i;
       }
+      if (eras) {
+        // retire every node through a copy of its guard while the original keeps holding it: from here on only the slot
+        // of guard i stands between node i and its destruction
+        for (int i = 0; i < n; i++) {
+          try {
+            GP t(*h[i]);
+            t.reclaim();
+          } catch (const Exc&) {
+            fail("SLOTS", "generation %d: copy of guard %d refused (K = %d)", gen, i + 1, K);
+          }
+          scan_and_check("after a retirement through a copy", released);
+        }
+      }
       for (int k = 0; k < np; k++) {
         int i = pos[k];
-        h[i]->reclaim(); // the guard's own node is unlinked: retire it through this guard (releases the slot)
+        if (eras) h[i]->reset();
+        else
+          h[i]->reclaim(); // the guard's own node is unlinked: retire it through this guard (releases the slot)
         released[i] = true;
         scan_and_check("after a release", released);
       }
